@@ -210,6 +210,12 @@ class FunctorPool:
                 self.run_event.wait()
 
             self.pool._sending_work = False
+            try:
+                # wake up the consumer, it might be waiting for results that will never come
+                self.pool._results_queue.put(None, block=False)
+            except queue.Full:
+                # there is something to read, so the consumer will not stay blocked
+                pass
 
     def __init__(self, workers: List[BaseFunctorWorker[T, R]], context: Optional[BaseContext] = None,
                  work_queue_maxsize: Optional[Union[int, float]] = 1.0,
@@ -308,20 +314,30 @@ class FunctorPool:
         if self._results_queue.qsize() > 0:
             chunks = []
             indexes = []
+            woken_up = False
 
             with self._results_queue_lock:
                 try:
                     while self._results_queue.qsize() > 0:
-                        res_i, res_chunk = self._results_queue.get(block=False)
+                        res = self._results_queue.get(block=False)
+                        if res is None:
+                            # wake up token from the sending thread, it carries no results
+                            woken_up = True
+                            continue
+                        res_i, res_chunk = res
                         chunks.append(res_chunk)
                         indexes.append(res_i)
                 except queue.Empty:
                     ...
 
-            if len(chunks) > 0:
+            if len(chunks) > 0 or woken_up:
                 return indexes, chunks
 
-        res_i, res_chunk = self._results_queue.get()
+        res = self._results_queue.get()
+        if res is None:
+            # wake up token from the sending thread, the caller should check again whether there is something to wait for
+            return [], []
+        res_i, res_chunk = res
         return [res_i], [res_chunk]
 
     def imap(self, data: Iterable[T], chunk_size: int = 1) -> Generator[R, None, None]:
